@@ -66,12 +66,14 @@ structure Req where
 deriving DecidableEq, Repr
 
 /-- one registration of the script: `r.METHOD(path)` directly or through nested groups with the given
-prefixes (outermost first), with the constraints as `RegisterRoute` hands them to the engines -/
+prefixes (outermost first), with the constraints as `RegisterRoute` hands them to the engines; `mount = some
+prefix`: the route was registered like that on a sub-router which is mounted with `r.Mount(prefix, sub)` -/
 structure Reg where
   method : Bytes
   groups : List Bytes
   path : Bytes
   cons : List (Bytes × Nat)
+  mount : Option Bytes := none
 deriving DecidableEq, Repr
 
 end Rivaas.Route
